@@ -34,7 +34,7 @@ RULE = ("(a) component: operation sequences (<= 60) on simulation_state_ops: add
         "sequence with a cross-search-cell move AND a return to a previous cell AND a removal from a shared cell; (b) = history with a "
         "cross-search-cell move and a request removal; distinct = sha1(case)")
 ASSUMPTIONS = hprop.COMMON_ASSUMPTIONS + ["fresh entity ids only (re-adding a live id is outside what any caller does)"]
-FLOORS = {"quick": {"ops": 5000, "flag:cross_search_cell_move": 100, "flag:removal_from_shared_cell": 30}, "thorough": {"ops": 200000}}
+FLOORS = {"quick": {"ops": 5000, "flag:cross_search_cell_move": 100, "flag:removal_from_shared_cell": 30}, "thorough": {"ops": 100000}}
 
 KINDS = ["v", "r", "s", "b"]
 OPS = ["add", "add", "move", "move", "move", "remove", "pop", "touch"]
